@@ -127,6 +127,12 @@ static void server_increment_failures(ares_server_t *server,
   server->consec_failures++;
   ares_slist_node_reinsert(node);
 
+  /* A failure also ends any probe of this server.  A probe that fails (times
+   * out, is refused, cannot be written) is completed through
+   * ares_requeue_query(), which calls end_query() without a server, so
+   * probe_pending was never reset and the server was never probed again. */
+  server->probe_pending = ARES_FALSE;
+
   ares_tvnow(&next_retry_time);
   timeadd(&next_retry_time, channel->server_retry_delay);
   server->next_retry_time = next_retry_time;
